@@ -10,3 +10,7 @@ template int FIX8::RealmBase::get_rlm_idx<int>(const int&) const;
 template int FIX8::RealmBase::get_rlm_idx<char>(const char&) const;
 template bool FIX8::RealmBase::is_valid<int>(const int&) const;
 template bool FIX8::RealmBase::is_valid<char>(const char&) const;
+// Field<T, tag>::get_rlm_idx / is_valid wrappers (C10): one instantiation per value type
+template class FIX8::Field<int, 34>;
+template class FIX8::Field<char, 54>;
+template class FIX8::Field<FIX8::Boolean, 43>;
